@@ -1,5 +1,6 @@
 //! Kani harnesses over the real pairing-plus crate (feature `verif`).  One module per property.
 #![allow(dead_code, unused_imports, unused_variables, non_snake_case)]
+#![recursion_limit = "512"]
 extern crate ff_zeroize as ff;
 extern crate pairing_plus as pp;
 extern crate alloc;
